@@ -36,6 +36,9 @@ def main():
         if not os.path.exists(os.path.join(d, "patch.diff")):
             continue
         meta = json.load(open(os.path.join(d, "meta.json")))
+        if meta.get("retired"):
+            print(f"{name}: retired - {meta['retired'][:120]}")
+            continue
         res = {}
         if not suite:
             # keep the record of an earlier --suite run (the suite is only re-run on request)
